@@ -9,8 +9,8 @@ import BpModel.Model.Schema
   own size in bits (prefix included) as a 16-bit number when extensible.
 * `Spec.encode t v` — those bits packed into `⌈N/8⌉` bytes, stream bit `k` at byte `k / 8`,
   position `k % 8`, zero padded.
-* `Spec.dec t W i` — prefix-honouring decoder of a wire `W` (Nat view) from bit `i`: returns the
-  value and the position of the next sibling.  An extensible node's announced size / capacity
+* `Spec.dec t W L i` — prefix-honouring decoder of a wire `W` (Nat view, `L` bits long) from bit
+  `i`: returns the value and the position of the next sibling (`none` if a read leaves the wire).  An extensible node's announced size / capacity
   decides where the next sibling starts (forward compatibility, C05).
 * `Spec.proj t v` — restriction of a value of a newer schema to the older schema `t`.
 -/
@@ -49,48 +49,69 @@ def Spec.encode (t : Ty) (v : Val) : List Nat :=
 /-- unsigned value of wire bits `[i, i+n)` -/
 def readNat (W i n : Nat) : Nat := (W >>> i) % 2^n
 
+/-- checked read: bits `[i, i+n)` must lie inside the first `L` bits of the wire -/
+def readB (W L i n : Nat) : Option Nat := if i + n ≤ L then some (readNat W i n) else none
+
 /-- decode `k` elements with a given element decoder -/
-def decArrWith (d : Nat → Val × Nat) : Nat → Nat → List Val × Nat
-  | 0, i => ([], i)
+def decArrWith (d : Nat → Option (Val × Nat)) : Nat → Nat → Option (List Val × Nat)
+  | 0, i => some ([], i)
   | k+1, i =>
-    let r := d i
-    let rs := decArrWith d k r.2
-    (r.1 :: rs.1, rs.2)
+    match d i with
+    | none => none
+    | some (v, i1) =>
+      match decArrWith d k i1 with
+      | none => none
+      | some (vs, i2) => some (v :: vs, i2)
 
 mutual
-def Spec.dec : Ty → Nat → Nat → Val × Nat
-  | .bool, W, i => (.int (readNat W i 1), i + 1)
-  | .byte, W, i => (.int (readNat W i 8), i + 8)
-  | .uint n, W, i => (.int (readNat W i n), i + n)
-  | .int n, W, i => (.int (sgn (readNat W i n) n), i + n)
-  | .enum n _, W, i => (.int (readNat W i n), i + n)
-  | .alias t, W, i => Spec.dec t W i
-  | .array ext cap e, W, i =>
+/-- `Spec.dec t W L i`: decode type `t` from bit `i` of the wire `W` (Nat view) whose length is `L`
+bits; `none` if a read would leave the wire.  Returns the value and the position of the next
+sibling. -/
+def Spec.dec : Ty → Nat → Nat → Nat → Option (Val × Nat)
+  | .bool, W, L, i => (readB W L i 1).map fun (u : Nat) => (.int (u : Int), i + 1)
+  | .byte, W, L, i => (readB W L i 8).map fun (u : Nat) => (.int (u : Int), i + 8)
+  | .uint n, W, L, i => (readB W L i n).map fun (u : Nat) => (.int (u : Int), i + n)
+  | .int n, W, L, i => (readB W L i n).map fun (u : Nat) => (.int (sgn u n), i + n)
+  | .enum n _, W, L, i => (readB W L i n).map fun (u : Nat) => (.int (u : Int), i + n)
+  | .alias t, W, L, i => Spec.dec t W L i
+  | .array ext cap e, W, L, i =>
     if ext then
-      let ahead := readNat W i 16
-      let r := decArrWith (Spec.dec e W) cap (i + 16)
-      let per := (r.2 - (i + 16)) / cap
-      (.arr r.1, if ahead > cap then r.2 + (ahead - cap) * per else r.2)
+      match readB W L i 16 with
+      | none => none
+      | some ahead =>
+        match decArrWith (Spec.dec e W L) cap (i + 16) with
+        | none => none
+        | some (vs, i2) =>
+          some (.arr vs, if ahead > cap then i2 + (ahead - cap) * ((i2 - i - 16) / cap) else i2)
     else
-      let r := decArrWith (Spec.dec e W) cap i
-      (.arr r.1, r.2)
-  | .msg ext fs, W, i =>
+      match decArrWith (Spec.dec e W L) cap i with
+      | none => none
+      | some (vs, i2) => some (.arr vs, i2)
+  | .msg ext fs, W, L, i =>
     if ext then
-      let ahead := readNat W i 16
-      let r := Spec.decFields fs W (i + 16)
-      (.msg r.1, if i + ahead ≥ r.2 then i + ahead else r.2)
+      match readB W L i 16 with
+      | none => none
+      | some ahead =>
+        match Spec.decFields fs W L (i + 16) with
+        | none => none
+        | some (vs, i2) => some (.msg vs, if i + ahead ≥ i2 then i + ahead else i2)
     else
-      let r := Spec.decFields fs W i
-      (.msg r.1, r.2)
-def Spec.decFields : List (Nat × Ty) → Nat → Nat → List Val × Nat
-  | [], _, i => ([], i)
-  | (_, t) :: fs, W, i =>
-    let r := Spec.dec t W i
-    let rs := Spec.decFields fs W r.2
-    (r.1 :: rs.1, rs.2)
+      match Spec.decFields fs W L i with
+      | none => none
+      | some (vs, i2) => some (.msg vs, i2)
+def Spec.decFields : List (Nat × Ty) → Nat → Nat → Nat → Option (List Val × Nat)
+  | [], _, _, i => some ([], i)
+  | (_, t) :: fs, W, L, i =>
+    match Spec.dec t W L i with
+    | none => none
+    | some (v, i1) =>
+      match Spec.decFields fs W L i1 with
+      | none => none
+      | some (vs, i2) => some (v :: vs, i2)
 end
 
-def Spec.decode (t : Ty) (bytes : List Nat) : Val := (Spec.dec t (bytesToNat bytes) 0).1
+def Spec.decode (t : Ty) (bytes : List Nat) : Option Val :=
+  (Spec.dec t (bytesToNat bytes) (8 * bytes.length) 0).map (·.1)
 
 mutual
 /-- restriction of a value of a newer schema to the older schema `t` -/
